@@ -4,9 +4,9 @@
     The model is PARAMETRIC in the region:
       [intersects], [contains] : the region's IntersectsCell / ContainsCell as functions of the cell id,
       [bound]                  : its CellUnionBound(),
-      [fallback]               : what [NewRegionCoverer().Covering(&covering)] returns inside
-                                 normalizeCovering's "very large covering" branch (a covering of a
-                                 cell union by the default coverer; see [cu_fallback] at the end).
+      [fallback]               : what [rc.Covering(&covering)] returns inside normalizeCovering's
+                                 "very large covering" branch, as a function of the coverer (whose
+                                 options rc copies) and of the covering; see [cu_fallback] at the end.
     The integer leaf functions of cellid.go ([s2_CellID_*]) are the translator's output
     (Gen/CellIDCov.v), regenerated from /repo on every run.  Definitions only; no proofs here. *)
 From Coq Require Import ZArith List Bool Sorting.Mergesort Orders FSets.FMapPositive.
@@ -175,7 +175,7 @@ Fixpoint iter2 {S R : Type} (n : nat) (f : S -> S + R) (s : S) : S + R :=
 Section Region.
   Variable intersects contains : Z -> bool.
   Variable bound : list Z.
-  Variable fallback : list Z -> option (list Z).
+  Variable fallback : coverer -> list Z -> option (list Z).
 
   Section WithCoverer.
   Variable cv : coverer.
@@ -323,7 +323,7 @@ Section Region.
                 then cu_Denormalize (minLevel cv) (levelMod cv) cov2 else cov2 in
     let excess := len cov3 - maxCells cv in
     if (excess <=? 0) || isCanonical cov3 then Some cov3
-    else if excess * len cov3 >? 10000 then fallback cov3
+    else if excess * len cov3 >? 10000 then fallback cv cov3
     else Some (greedy_merge (length cov3) cov3).
 
   End WithCoverer.
@@ -386,13 +386,22 @@ Section Region.
     option_map (cu_Denormalize (clampMinLevel rc) (clampLevelMod rc)) (InteriorCellUnion rc).
 End Region.
 
-(** ** The fallback of normalizeCovering: [NewRegionCoverer().Covering(&covering)], i.e. the
-    default coverer run on the cell union itself as the region.  [cubound] stands for
-    [covering.CapBound().CellUnionBound()] (float geometry, outside this model).  The inner run
-    cannot reach the fallback again when [cubound] returns fewer than 103 cells (a cap bound has at
-    most 6), so its own fallback is irrelevant and set to "no result". *)
-Definition cu_fallback (cubound : list Z -> list Z) (cu : list Z) : option (list Z) :=
-  Covering (cu_IntersectsCellID cu) (cu_ContainsCellID cu) (cubound cu) (fun _ => None) default_opts.
+(** ** The fallback of normalizeCovering (after /repo 81ed250):
+      rc := &RegionCoverer{MinLevel: c.minLevel, MaxLevel: c.MaxLevel, LevelMod: c.levelMod, MaxCells: c.maxCells}
+      *covering = rc.Covering(covering)
+    i.e. a coverer with the same options run on the cell union itself as the region.  [cubound]
+    stands for [covering.CapBound().CellUnionBound()] (float geometry, outside this model).  The
+    nested run computes its initial candidates with FastCovering and may reach this branch again
+    (it does when MaxCells is very negative); the Go recursion ends because every nested bound is
+    coarser than the previous one.  The model bounds the nesting by [depth] and reports [None] beyond. *)
+Fixpoint cu_fallback (depth : nat) (cubound : list Z -> list Z) (cv : coverer) (cu : list Z) : option (list Z) :=
+  match depth with
+  | O => None
+  | S d => Covering (cu_IntersectsCellID cu) (cu_ContainsCellID cu) (cubound cu) (cu_fallback d cubound)
+                    (mkOpts (minLevel cv) (maxLevel cv) (levelMod cv) (maxCells cv))
+  end.
+(** nesting allowed in the correspondence runs and in the instantiated theorems *)
+Definition fallback_depth : nat := 64.
 
 (** ** Tables recorded from the implementation, as functions (for the correspondence files) *)
 Definition table_of (l : list (Z * bool)) : PositiveMap.t bool :=
@@ -405,8 +414,9 @@ Definition table_fun (l : list (Z * bool)) (d : bool) : Z -> bool :=
            end.
 Definition table2 (t f : list Z) (d : bool) : Z -> bool :=
   table_fun (map (fun k => (k, true)) t ++ map (fun k => (k, false)) f) d.
-Definition fallback_table (l : list (list Z * list Z)) : list Z -> option (list Z) :=
-  fun cu => match find (fun '(k, _) => list_eqb Z.eqb k cu) l with Some (_, v) => Some v | None => None end.
+(** CellUnionBounds recorded from the implementation, keyed by the cell union *)
+Definition cubound_table (l : list (list Z * list Z)) : list Z -> list Z :=
+  fun cu => match find (fun '(k, _) => list_eqb Z.eqb k cu) l with Some (_, v) => v | None => [] end.
 
 Definition olist_eqb (a : option (list Z)) (b : list Z) : bool :=
   match a with Some l => list_eqb Z.eqb l b | None => false end.
